@@ -1,1 +1,3 @@
+pub mod c11;
+pub mod c12;
 pub mod cmdprops;
